@@ -190,6 +190,14 @@ theorem c18_entry_never_replaced (P : Params) (hnc : P.inner.NoCached) (r : RSta
     s'.sh.σ.get? k = some v :=
   (step_spec P hnc r.repls σ _ s' i (inv_run P hnc r.repls σ sched _ (inv_init P r hr σ progs)) hs).2.entry k v hv
 
+/-- **no deadlock with both column settings** (two cache keys, two entry locks): in every reachable state of every interleaving, if
+some thread has work left then some thread can take a step.  (The model gives every key its own lock; DashMap may make two keys
+share a shard lock, which only removes interleavings — the holder of a shard lock still waits for nothing.) -/
+theorem c18_no_deadlock_two_keys (P : Params) (hnc : P.inner.NoCached) (r : RState) (hr : r.Inv) (σ : Store) (progs : List (List Op))
+    (sched : List Nat) (hwork : ∃ t ∈ (run P (initSys r σ progs) sched).ths, t.ops ≠ []) :
+    ∃ i, (step P (run P (initSys r σ progs) sched) i).isSome = true :=
+  no_deadlock_of_inv P r.repls σ _ (inv_run P hnc r.repls σ sched _ (inv_init P r hr σ progs)) hwork
+
 /-- the memoised hash: every `get_or_init` returns the one value -/
 theorem c18_once_value (P : Params) (hnc : P.inner.NoCached) (r : RState) (hr : r.Inv) (σ : Store) (progs : List (List Op))
     (sched : List Nat) : ∀ t ∈ (run P (initSys r σ progs) sched).ths, ∀ v, Ans.once v ∈ t.outs → v = P.hv := by
@@ -209,5 +217,78 @@ def exR : RState := { repls := [⟨1, 2, [88], none, 1⟩, ⟨1, 2, [89], none, 
 example : exR.Inv := fun h => by cases h
 example : (run exP (initSys exR [] [[.clone], [.sorted]]) [0, 1, 1, 1, 1, 0, 0]).ths.all (fun t => t.ops.isEmpty && t.outs.length == 1) = true := by
   decide
+
+/-! ## the whole life of a shared ReplaceSource
+
+Mutators need `&mut self`, so the life of a value alternates between *exclusive* phases — any sequence of `replace` / `insert`
+calls, observers and clones by the one owner (the histories of C05) — and *shared* phases in which any number of threads read
+concurrently.  The hypothesis `r.Inv` of the theorems above is met at the start of every phase of every such life, and the
+replacement list at that point is the list of all `replace` / `insert` calls so far. -/
+
+inductive Phase where
+  | excl (ops : List ROp)
+  | shared (progs : List (List Op)) (sched : List Nat)
+
+def runPhase (P : Params) (s : RState × Store) : Phase → RState × Store
+  | .excl ops => (ops.foldl RState.step s.1, s.2)
+  | .shared progs sched => ((run P (initSys s.1 s.2 progs) sched).sh.r, (run P (initSys s.1 s.2 progs) sched).sh.σ)
+
+def lifeEnd (P : Params) : RState × Store → List Phase → RState × Store
+  | s, [] => s
+  | s, ph :: rest => lifeEnd P (runPhase P s ph) rest
+
+/-- the `replace` / `insert` calls of a life, in call order -/
+def lifeRepls : List Phase → List Repl
+  | [] => []
+  | .excl ops :: rest => histRepls ops ++ lifeRepls rest
+  | .shared _ _ :: rest => lifeRepls rest
+
+theorem lifeEnd_inv (P : Params) (hnc : P.inner.NoCached) : ∀ (phases : List Phase) (s : RState × Store), s.1.Inv →
+    (lifeEnd P s phases).1.Inv ∧ (lifeEnd P s phases).1.repls = s.1.repls ++ lifeRepls phases := by
+  intro phases
+  induction phases with
+  | nil => intro s h; exact ⟨h, by simp [lifeEnd, lifeRepls]⟩
+  | cons ph rest ih =>
+    intro s h
+    cases ph with
+    | excl ops =>
+      obtain ⟨h1, h2⟩ := RState.run_inv ops s.1 h
+      obtain ⟨a, b⟩ := ih (runPhase P s (.excl ops)) h1
+      refine ⟨a, ?_⟩
+      simp only [lifeEnd, lifeRepls]
+      rw [b]
+      simp only [runPhase]
+      rw [h2, List.append_assoc]
+    | shared progs sched =>
+      obtain ⟨h1, h2⟩ := c18_flag_implies_sorted_value P hnc s.1 h s.2 progs sched
+      obtain ⟨a, b⟩ := ih (runPhase P s (.shared progs sched)) h1
+      refine ⟨a, ?_⟩
+      simp only [lifeEnd, lifeRepls]
+      rw [b]
+      simp only [runPhase]
+      rw [h2]
+
+/-- **every concurrent read in every shared phase of every life of a ReplaceSource** (created empty; any exclusive and shared
+phases before): each `sorted_replacement()` returns the stable sort of all replacements registered so far, and `source()` of the
+object or of a clone taken meanwhile is the reference model of C05 applied to them -/
+theorem c18_life (P : Params) (hnc : P.inner.NoCached) (σ : Store) (pre : List Phase) (progs : List (List Op)) (sched : List Nat)
+    (inner : Text) :
+    ∀ t ∈ (run P (initSys (lifeEnd P ({}, σ) pre).1 (lifeEnd P ({}, σ) pre).2 progs) sched).ths, ∀ a ∈ t.outs,
+      (match a with
+       | .sorted rs => rs = sortRepls (lifeRepls pre)
+           ∧ RState.source inner { repls := lifeRepls pre, sorted := rs, isSorted := true } = applyRepls inner (lifeRepls pre)
+       | .cloned c => c.repls = lifeRepls pre ∧ c.source inner = applyRepls inner (lifeRepls pre)
+       | _ => True) := by
+  have hinit : ({} : RState).Inv := fun _ => rfl
+  obtain ⟨h1, h2⟩ := lifeEnd_inv P hnc pre ({}, σ) hinit
+  have h2' : (lifeEnd P ({}, σ) pre).1.repls = lifeRepls pre := by rw [h2]; rfl
+  intro t ht a ha
+  have := c18_replace_answers P hnc _ h1 _ progs sched inner t ht a ha
+  rw [h2'] at this
+  exact this
+
+/-- non-vacuity: a life with two exclusive phases around a shared one -/
+example : lifeRepls [.excl [.replace ⟨1, 2, [88], none, 1⟩, .observe], .shared [[.sorted], [.clone]] [0, 1, 0, 1], .excl [.replace ⟨0, 1, [89], none, 1⟩]]
+    = [⟨1, 2, [88], none, 1⟩, ⟨0, 1, [89], none, 1⟩] := by decide
 
 end Rs.ConcV
